@@ -48,7 +48,7 @@ impl Property for C10 {
         "Cases: two representations x,y of one numeric value within one zoo type: different lengths >= the significant bits, different provenance (spare capacity, long-then-truncated, heap-mode vs inline Bv, produced by an operation). Checked: the premise x==y is itself confirmed against the model (values equal) and on the implementation; then the byte stream fed to a recording Hasher is identical, std DefaultHasher outputs are equal, and a HashSet holding x contains y. Enumerated: all values n<=8 x all length pairs <=12 per type; for every n1<=min(C,320) the partner lengths {n1+1, next word boundary, boundary+1, C} with three value classes. Non-trivial: the two representations differ in length, provenance, capacity or Bv storage mode. Distinct by hash of the case.".into()
     }
     fn random_cases(&self, tier: Tier) -> u64 {
-        tier.pick(300000, 1200000)
+        tier.pick(300000, 9600000)
     }
     fn strategy(&self, tier: Tier) -> BoxedStrategy<C10Case> {
         let lmax = lmax_dyn(tier);
@@ -60,7 +60,7 @@ impl Property for C10 {
         }).boxed()
     }
     fn exhaustive_subspaces(&self, _tier: Tier) -> Vec<String> {
-        vec!["all values with n<=8 x every partner length <=12 (>= significant bits) x 18 types".into()]
+        vec!["all values with n<=8 x every partner length <=12 (>= significant bits) x 19 types".into()]
     }
     fn enumerate(&self, _tier: Tier, sh: &mut Shard, f: &mut dyn FnMut(C10Case) -> bool) {
         for t in 0..NT {
